@@ -549,8 +549,12 @@ def directed():
                 c.update({"d": 1})
             out.append(c)
     for k, (dd, K, sep) in enumerate([(2, 2, "overlap"), (2, 3, "overlap"), (3, 2, "overlap"), (1, 2, "overlap"), (2, 2, "separated")]):
-        out.append(dict(base, d=dd, K=K, n=[30, 26, 28][:K], sep=sep, seed=100 + k, p=0.6, unl=False, seq=refine_seq,
-                        learn={"mode": "dim", "lmax": 2, "ml": k % 2 == 0, "lambd": 0.01, "evals": 20, "reuse": k == 1, "rebal": k == 2, "tol": 0.0}))
+        lrn = {"mode": "dim", "lmax": 2, "ml": k % 2 == 0, "lambd": 0.01, "evals": 20, "reuse": k == 1, "rebal": k == 2, "tol": 0.0}
+        out.append(dict(base, d=dd, K=K, n=[30, 26, 28][:K], sep=sep, seed=100 + k, p=0.6, unl=False, seq=refine_seq, learn=lrn))
+        if k < 3:   # refinement directly after learning: the held-out testing data were classified once with the coarse estimators
+            out.append(dict(base, d=dd, K=K, n=[30, 26, 28][:K], sep=sep, seed=200 + k, p=0.5, unl=False, learn=lrn,
+                            seq=[{"op": "evaluate"}, {"op": "refine", "evals": 150}, {"op": "evaluate"}, {"op": "call", "where": "in", "m": 8, "unl": False, "qseed": 34},
+                                 {"op": "refine", "evals": 300}, {"op": "evaluate"}]))
     # anchors: a query of 5000 samples (batch sizes / chunking inside the library), component grids with more than 200 points (other interpolation branch),
     # a second object interleaved
     out.append(dict(base, seq=[{"op": "call", "where": "in", "m": 5000, "unl": False, "qseed": 41}, {"op": "test", "where": "part", "m": 4500, "unl": True, "qseed": 42, "print": False},
@@ -568,7 +572,7 @@ def run(ctx):
         ctx.case(case)
         run_case(ctx, case)
     ctx.note("directed refinement histories: %d refinements added grid points, %d earlier classes changed through refinement" % (STATS["refined"], STATS["reclassified"]))
-    n = 150 if ctx.quick() else 4500
+    n = 100 if ctx.quick() else 4000
     for k in range(n):
         if ctx.out_of_time(0.8):
             ctx.note("stopped after %d random cases (time)" % k)
